@@ -240,6 +240,18 @@ func countFloatSignificantDigits(str string) (count uint) {
 	return count
 }
 
+func countDecimalSignificantDigits(str string) (count int) {
+	for _, ch := range str {
+		if ch == 'e' || ch == 'E' {
+			break
+		}
+		if ch >= '1' && ch <= '9' || (ch == '0' && count > 0) {
+			count++
+		}
+	}
+	return count
+}
+
 func (_this *cteListener) ExitValueFloat(ctx *parser.ValueFloatContext) {
 	defer func() {
 		_this.wrapPanic(recover(), ctx.BaseParserRuleContext)
@@ -273,9 +285,13 @@ func (_this *cteListener) ExitValueFloat(ctx *parser.ValueFloatContext) {
 		}
 	}
 
-	if value, err := compact_float.DFloatFromString(str); err == nil {
-		_this.eventReceiver.OnDecimalFloat(value)
-		return
+	// A coefficient of more than 19 digits cannot fit in a DFloat (and DFloatFromString
+	// silently wraps some of them around)
+	if countDecimalSignificantDigits(strNoSign) <= 19 {
+		if value, err := compact_float.DFloatFromString(str); err == nil {
+			_this.eventReceiver.OnDecimalFloat(value)
+			return
+		}
 	}
 
 	decimal, cond, err := apd.NewFromString(strNoSign)
